@@ -276,6 +276,43 @@ def roundtrip_rules(R, lib, ob):
         R.instance('R2', c + ':short', wf.loc)
         if msg:
             R.violation('R2', c + ':short', wf.loc, msg)
+        # the overload that takes a string in flash memory (it copies the text into a local buffer and goes on from there): the same
+        # prefixes must be refused, the full text accepted, a text one character longer refused
+        flash = [f_ for f_ in lib.fns('%s%s::%s' % (NS, cls, wr)) if len(f_.params) == 1 and '__FlashStringHelper' in (f_.params[0][1] or '')]
+        for ff in flash:
+            from .rules_C04b import _cstring_ops
+            cops = _cstring_ops()
+
+            def strlen2(ev_, recv_, args_, cops=cops):
+                a_ = args_[0]
+                if isinstance(a_, Ref) and isinstance(a_.box, Text):
+                    return a_.box.length() - a_.key
+                return cops['strlen'](ev_, recv_, args_)
+            intr2 = dict(intr)
+            intr2.update({k_: v_ for k_, v_ in cops.items() if 'strlen' not in k_})
+            intr2.update({'strlen': strlen2, '::strlen': strlen2, 'strncpy_P': cops['strncpy'], '::strncpy_P': cops['strncpy']})
+            msg2 = None
+            for k in list(range(0, need[cls] + 1)) + [need[cls] + 1]:
+                text = full[:k] if k <= need[cls] else full + '0'
+                t2 = Text(text)
+                try:
+                    back = AEval(module=mod, intrinsics=intr2, typed=True, max_steps=200000).call_function(ff.name, [Ref(t2, 0)], chosen=CxxModule._Fn(ff))
+                except IndexError:
+                    msg2 = 'a flash string of %d characters (%r): the copy or the parser reads or writes outside its buffer' % (len(text), text)
+                    break
+                except Raised as r_:
+                    msg2 = 'a flash string of %d characters: %s' % (len(text), r_.what)
+                    break
+                if not isinstance(back, AObj):
+                    msg2 = 'a flash string of %d characters: %r' % (len(text), back)
+                    break
+                err = bool(getf(back, cls, 'isError'))
+                if err != (k != need[cls]):
+                    msg2 = ('a flash string of %d characters (%r) %s' % (len(text), text, 'does not parse to an error value' if not err else 'is refused although it is complete'))
+                    break
+            R.instance('R2', c + ':flash', ff.loc)
+            if msg2:
+                R.violation('R2', c + ':flash', ff.loc, msg2)
     # ---- R4 placeholders
     for cls in ('LocalDate', 'LocalTime', 'LocalDateTime', 'OffsetDateTime', 'ZonedDateTime'):
         pf = fn('%s%s::printTo' % (NS, cls), 1)
